@@ -488,7 +488,8 @@ fn do_op(w: &Arc<World>, op: &Op) -> Res {
             Res::Unit
         }
         Op::GetState { store } => match w.store(*store) {
-            Some(s) => Res::State(s.get_state()),
+            // through the `Store` trait, whose implementation forwards to the inherent method: both are covered
+            Some(s) => Res::State(<TStore as Store<St, Act>>::get_state(&*s)),
             None => Res::Skipped,
         },
         Op::GetMetrics { store } => match w.store(*store) {
